@@ -149,7 +149,7 @@ fn abscissae(run: &Run) -> Vec<(String, Vec<f64>)> {
 }
 
 pub fn run(run: &Run) {
-    run.rule("degrees 0..=6 × {integer, half, quarter grids; Chebyshev points (5..33 nodes) rounded to 2^-10; clustered; one-sided; uniform 40, 200, 1000, 1024, 1025, 1500, 2000, 2049 points} × every response over {-1,0,1}^n for the point sets with n ≤ 8 (all sub-selections of the integer/half grids) and polynomial + fixed noise patterns at noise scales {0,1e-3,1,1e3} and whole-response scales {1e-19,1e-16,1e-6,1,1e12}; every multiset over {-2..2} with multiplicities {0,1,2,9} (repeated abscissae, vanishing power sums); each also on a regressor object that was fitted before to responses of scale 1e12 or to another point set; predict on every coefficient vector over {-2..2}^(d+1), d ≤ 3; non-trivial = degree ≥ 1");
+    run.rule("degrees 0..=6 × {integer, half, quarter grids; Chebyshev points (5..33 nodes) rounded to 2^-10; clustered; one-sided; uniform 40, 200, 1000, 1024, 1025, 1500, 2000, 2049 points} × every response over {-1,0,1}^n for the point sets with n ≤ 8 (all sub-selections of the integer/half grids) and polynomial + fixed noise patterns at noise scales {0,1e-3,1,1e3} and whole-response scales {1e-19,1e-16,1e-6,1,1e12}; every multiset over {-2..2} with multiplicities {0,1,2,9} (repeated abscissae, vanishing power sums); each also on a regressor object that was fitted before to responses of scale 1e12 or to another point set; predict on every coefficient vector over {-2..2}^(d+1), d ≤ 6; non-trivial = degree ≥ 1");
     let sets = abscissae(run);
     // 1. every response over {-1,0,1}^n on small abscissa sets
     let small_sets: Vec<Vec<f64>> = vec![
@@ -286,7 +286,7 @@ pub fn run(run: &Run) {
     });
     // 3. predict = c0 + c1 x + ... + cd x^d exactly (dyadic inputs, small integer coefficients)
     let px: Vec<f64> = vec![-2.0, -1.5, -1.0, -0.25, 0.0, 0.5, 1.0, 1.75, 2.0, 3.0];
-    for d in 0..=3usize {
+    for d in 0..=6usize {
         par_words(5, d + 1, |w| {
             let c: Vec<f64> = w.iter().map(|&i| i as f64 - 2.0).collect();
             run.case();
